@@ -270,11 +270,25 @@ def feval(t, env, eng, depth=0):
         a, b = feval(t[3], env, eng, depth + 1), feval(t[4], env, eng, depth + 1)
         if a is None or b is None: return None
         op = t[1]
+        from mir import INT_TYS
+        from sym import wrap_int
+        if t[2] in INT_TYS and isinstance(a, int) and isinstance(b, int) and not isinstance(a, bool) and not isinstance(b, bool):
+            # integer arithmetic wraps at the width of its type (release semantics)
+            if op == 'add': return wrap_int(t[2], a + b)
+            if op == 'sub': return wrap_int(t[2], a - b)
+            if op == 'mul': return wrap_int(t[2], a * b)
+            if op == 'shl' and 0 <= b < INT_TYS[t[2]][0]: return wrap_int(t[2], a << b)
+            if op == 'shr' and 0 <= b < INT_TYS[t[2]][0]: return a >> b
+            if op == 'bitand': return a & b
+            if op == 'bitor': return a | b
+            if op == 'bitxor': return a ^ b
+            if op in ('div', 'rem') and b != 0 and a >= 0 and b > 0: return a // b if op == 'div' else a % b
         try:
             if op == 'add': return a + b
             if op == 'sub': return a - b
             if op == 'mul': return a * b
             if op == 'div': return a / b if t[2] == 'f64' else None
+            if op == 'rem' and t[2] == 'f64' and isinstance(a, float) and isinstance(b, float) and b != 0: return math.fmod(a, b)
             if op == 'lt': return a < b
             if op == 'le': return a <= b
             if op == 'gt': return a > b
@@ -297,13 +311,30 @@ def feval(t, env, eng, depth=0):
         a = feval(t[3], env, eng, depth + 1)
         if a is None: return None
         if t[1] == 'int_to_float': return float(a)
+        from mir import INT_TYS
+        from sym import wrap_int
         if t[1] == 'int_to_int' and isinstance(a, bool): return int(a)
-        if t[1] == 'int_to_int': return a
+        if t[1] == 'int_to_int': return wrap_int(t[2], a) if t[2] in INT_TYS and isinstance(a, int) else a
+        if t[1] == 'float_to_int' and t[2] in INT_TYS and isinstance(a, float):
+            # `as` from float: truncation, saturating at the bounds of the type, NaN -> 0
+            w, sg = INT_TYS[t[2]]
+            lo, hi = (-(1 << (w - 1)), (1 << (w - 1)) - 1) if sg else (0, (1 << w) - 1)
+            if a != a: return 0
+            if a <= lo: return lo
+            if a >= hi: return hi
+            return int(a)
         return None
     if k == 'call' and isinstance(t[1], str):
         nm = t[1].rsplit("::", 1)[-1]
         args = [feval(x, env, eng, depth + 1) for x in t[2]]
         if any(x is None for x in args): return None
+        if nm in ('leading_zeros', 'trailing_zeros') and len(args) == 1 and isinstance(args[0], int) and not isinstance(args[0], bool):
+            from mir import INT_TYS
+            ty = term_ty(t[2][0])
+            if ty not in INT_TYS or args[0] < 0: return None
+            w = INT_TYS[ty][0]
+            if nm == 'leading_zeros': return w - args[0].bit_length()
+            return w if args[0] == 0 else (args[0] & -args[0]).bit_length() - 1
         if nm == 'abs' and len(args) == 1: return abs(args[0])
         if nm == 'min' and len(args) == 2: return min(args)
         if nm == 'max' and len(args) == 2: return max(args)
@@ -313,6 +344,10 @@ def feval(t, env, eng, depth=0):
             if nm == 'sin' and len(args) == 1: return _m.sin(args[0])
             if nm == 'cos' and len(args) == 1: return _m.cos(args[0])
             if nm == 'asin' and len(args) == 1: return _m.asin(args[0])
+            if nm == 'acos' and len(args) == 1: return _m.acos(args[0])
+            if nm == 'atan2' and len(args) == 2: return _m.atan2(args[0], args[1])
+            if nm == 'tan' and len(args) == 1: return _m.tan(args[0])
+            if nm == 'atan' and len(args) == 1: return _m.atan(args[0])
             if nm == 'sqrt' and len(args) == 1: return _m.sqrt(args[0])
         except ValueError:
             return None
@@ -360,9 +395,12 @@ def explore_leaves(crate, fn, opaque=(), args=None, max_tests=7, frames=None, mo
     return leaves if state["ok"] else None
 
 
-def frange_facts(t, env, facts, assume_not_nan=True):
+def frange_facts(t, env, facts, assume_not_nan=True, eng=None):
     """frange, with every sub-term's range intersected with what the comparisons among `facts` say
-    about it (a failed comparison is read as its negation when the inputs are known not to be NaN)"""
+    about it (a failed comparison is read as its negation when the inputs are known not to be NaN).
+    With `eng`, gated merges are followed: each side is ranged under its side of the gate."""
+    if eng is not None:
+        env = dict(env); env['__eng__'] = eng; env['__facts__'] = frozenset(facts); env['__nan__'] = assume_not_nan
     def refine(x, r):
         lo, hi = r
         for op, a, b, pos in cmp_facts(facts):
@@ -399,10 +437,30 @@ def _frange(t, env, depth=0, refine=None):
         v = f64_from_bits(t[2]); return (v, v)
     if k == 'un' and t[1] == 'neg':
         a = frange(t[3], env, depth + 1, refine); return None if a is None else (-a[1], -a[0])
+    if k == 'phi' and env.get('__eng__') is not None:
+        g = env['__eng__'].phi_gate.get(t)
+        if g is None: return None
+        rs = []
+        for side, val in ((True, g[1]), (False, g[2])):
+            r = frange_facts(val, {kk: vv for kk, vv in env.items() if not (isinstance(kk, str) and kk.startswith('__'))},
+                             env['__facts__'] | {('b', g[0], side)}, env['__nan__'], env['__eng__'])
+            if r is None: return None
+            if r[0] <= r[1]: rs.append(r)          # an empty side is unreachable
+        return (min(r[0] for r in rs), max(r[1] for r in rs)) if rs else None
     if k == 'call' and isinstance(t[1], str):
         nm = t[1].rsplit("::", 1)[-1]
+        # bounded whatever the arguments
+        if nm == 'atan2' and len(t[2]) == 2:
+            den = frange(t[2][1], env, depth + 1, refine)
+            if den is not None and den[0] >= 0: return (-math.pi / 2, math.pi / 2)      # atan2(y, x >= 0)
+            return (-math.pi, math.pi)
+        if nm == 'sqrt' and len(t[2]) == 1 and frange(t[2][0], env, depth + 1, refine) is None: return (0.0, float('inf'))
+        if nm in ('sin', 'cos') and len(t[2]) == 1: return (-1.0, 1.0)
+        if nm in ('asin', 'atan') and len(t[2]) == 1: return (-math.pi / 2, math.pi / 2)
+        if nm == 'acos' and len(t[2]) == 1: return (0.0, math.pi)
         args = [frange(x, env, depth + 1, refine) for x in t[2]]
         if any(x is None for x in args): return None
+        if nm == 'sqrt' and len(args) == 1 and args[0][1] >= 0: return (math.sqrt(max(args[0][0], 0.0)), math.sqrt(args[0][1]))
         if nm == 'abs':
             lo, hi = args[0]
             if lo >= 0: return (lo, hi)
